@@ -22,7 +22,9 @@ def generate(seed, tier, enlarged=False):
          'emit_step': 1, 't0': 0},
     ]
     for i in range(n):
-        c = sched.gen_case(rng, max_procs=4 if tier == 'quick' else 8, scripted=False)
+        # a third of the cases use processes whose timestep / condition depends on how often they were asked
+        # (calculate_timestep and update_condition are then not idempotent)
+        c = sched.gen_case(rng, max_procs=4 if tier == 'quick' else 8, scripted=(i % 3 == 2))
         if c['calls'][-1][1] == 'run':
             c['calls'][-1][1] = rng.choice(['update', 'force'])
         cases.append(c)
